@@ -33,6 +33,8 @@ class Scenario:
     self.class_attrs = {}      # (python class, attribute) -> model: class attributes that are shared state (a counter, a cell, a lock)
     self.constructible = set() # python classes whose construction is translated (__init__ with a fresh composite object as self)
     self.constructed = {}      # python class -> the composite objects made on the translated paths, in translation order
+    self.proto_factories = {}  # python class -> callable making a real instance: where attributes the scenario does not bind are looked up
+    self.auto_bound = []       # (object name, attribute, model name, model kind) bound that way
     self.notes = []
 
   def add(self, model):
